@@ -1,6 +1,9 @@
 //! One "world": scripted targets, the real penguin server (`run_listener` + `State`) and the real
 //! client (`client_main_inner`) with one remote per entry point kind, all on loopback in one tokio
-//! runtime.
+//! runtime.  `World::start_multi` builds the same world around a client that has only the 1-4 remotes of a
+//! "several remotes on one client" scenario (multi.rs), on local hosts and ports that may be shared between
+//! them where the operating system allows it (TCP and UDP ports are separate name spaces; so are the ports
+//! of 127.0.0.1 and ::1).
 
 use crate::io::{run_side, BoxStream, Role, Script, SideObs, Chunk};
 use penguin_mux::timing::OptionalDuration;
@@ -8,7 +11,7 @@ use rusty_penguin_lib::arg::{ClientArgs, Remote, ServerUrl};
 use rusty_penguin_lib::client::{HandlerResources, client_main_inner};
 use rusty_penguin_lib::server::{State, run_listener};
 use std::collections::VecDeque;
-use std::net::SocketAddr;
+use std::net::{IpAddr, Ipv4Addr, SocketAddr};
 use std::path::PathBuf;
 use std::str::FromStr;
 use std::sync::atomic::{AtomicU16, AtomicU64, AtomicUsize, Ordering};
@@ -38,6 +41,97 @@ pub fn pick_port() -> u16 {
     }
     panic!("no free port");
 }
+
+/// A port number outside the ephemeral range on which every one of the given sockets (is it UDP?, local
+/// address) can be bound right now: all of them are bound at the same number at the same time, then released.
+pub fn pick_port_for(wanted: &[(bool, IpAddr)]) -> Option<u16> {
+    let base = (std::process::id() % 50) as u16 * 160;
+    for _ in 0..4000 {
+        let off = NEXT_PORT.fetch_add(1, Ordering::Relaxed) % 8000;
+        let port = 12000 + (base + off) % 8000; // 12000..20000
+        let mut held_t = vec![];
+        let mut held_u = vec![];
+        let mut ok = true;
+        for (udp, ip) in wanted {
+            if *udp {
+                match std::net::UdpSocket::bind((*ip, port)) {
+                    Ok(s) => held_u.push(s),
+                    Err(_) => ok = false,
+                }
+            } else {
+                match std::net::TcpListener::bind((*ip, port)) {
+                    Ok(s) => held_t.push(s),
+                    Err(_) => ok = false,
+                }
+            }
+            if !ok {
+                break;
+            }
+        }
+        if ok {
+            return Some(port);
+        }
+    }
+    None
+}
+
+/// The address the client's socket will be bound to (what our own trial bind has to use): the address written in
+/// the specification when it is a literal, otherwise the one a local client reaches it at.
+fn bind_ip(host_text: &str, reach: IpAddr) -> IpAddr {
+    host_text.trim_start_matches('[').trim_end_matches(']').parse().unwrap_or(reach)
+}
+
+/// One entry point of the client of a multi-remote world: what listens where, as the local clients reach it.
+#[derive(Clone, Debug)]
+pub enum Listens {
+    Tcp(IpAddr, u16),
+    Udp(IpAddr, u16),
+    Unix(PathBuf),
+}
+
+impl Listens {
+    /// Is somebody bound there?  (Our own bind fails exactly then; it is released at once.)
+    pub fn bound(&self) -> bool {
+        match self {
+            Listens::Tcp(ip, p) => std::net::TcpListener::bind((*ip, *p)).is_err(),
+            Listens::Udp(ip, p) => std::net::UdpSocket::bind((*ip, *p)).is_err(),
+            Listens::Unix(p) => p.exists(),
+        }
+    }
+    pub fn text(&self) -> String {
+        match self {
+            Listens::Tcp(ip, p) => format!("TCP {}", SocketAddr::new(*ip, *p)),
+            Listens::Udp(ip, p) => format!("UDP {}", SocketAddr::new(*ip, *p)),
+            Listens::Unix(p) => format!("unix socket {}", p.display()),
+        }
+    }
+}
+
+/// One remote of the client of a multi-remote world, already tied to the world's targets: remote `i` of the list
+/// forwards to TCP target slot `i` (fixed TCP remote, Unix socket) or to UDP target `udp_target` (UDP remote).
+#[derive(Clone, Debug)]
+pub enum PlanKind {
+    Tcp,
+    Unix,
+    Socks,
+    Http,
+    Udp { udp_target: usize },
+}
+
+#[derive(Clone, Debug)]
+pub struct PlanRemote {
+    pub kind: PlanKind,
+    /// LOCAL_HOST as written in the specification (`127.0.0.1`, `[::1]`, `0.0.0.0`), and the address a local client uses
+    pub host_text: &'static str,
+    pub reach: IpAddr,
+    /// remotes with the same group get the same port number
+    pub group: u8,
+}
+
+/// How long a listener of a client that is running may take to appear after the first of its listeners was
+/// seen (they are all started together, before the client even connects to the server): after that it is
+/// "never opened".
+pub const OPEN_GRACE: Duration = Duration::from_millis(3000);
 
 pub struct TargetJob {
     pub script: Script,
@@ -80,6 +174,15 @@ pub struct World {
     pub udp_targets: Vec<UdpTarget>,
     /// client-side UDP listeners, one per UDP target
     pub udp_remote_ports: Vec<u16>,
+    /// where a local client reaches the entry points (127.0.0.1 everywhere except in multi-remote worlds)
+    pub tcp_hosts: Vec<IpAddr>,
+    pub socks_host: IpAddr,
+    pub http_host: IpAddr,
+    pub udp_remote_hosts: Vec<IpAddr>,
+    /// the client's remote specifications as given to it; multi-remote worlds: the
+    /// remotes (index, description) on which nothing listened although the client was up and running
+    pub specs: Vec<String>,
+    pub never_opened: Vec<(usize, String)>,
     pub hr: &'static HandlerResources,
     pub client_started: Instant,
     pub client_result: Arc<Mutex<Option<String>>>,
@@ -128,10 +231,20 @@ async fn udp_target_loop(sock: Arc<UdpSocket>, tag: u8, log: Arc<Mutex<UdpTarget
     }
 }
 
-impl World {
-    /// Build the world inside the current runtime. `Err` = infrastructure problem (ports, bind), to
-    /// be retried by the caller, not a finding.
-    pub async fn start() -> Result<Arc<World>, String> {
+/// Everything of a world but the client: scripted targets, the port that refuses, the real server.
+struct Base {
+    id: u64,
+    dir: PathBuf,
+    unexpected: Arc<AtomicUsize>,
+    slots: Vec<Slot>,
+    udp_targets: Vec<UdpTarget>,
+    closed: tokio::net::TcpSocket,
+    closed_port: u16,
+    server_addr: SocketAddr,
+}
+
+impl Base {
+    async fn start() -> Result<Base, String> {
         let id = NEXT_WORLD.fetch_add(1, Ordering::SeqCst);
         let dir = PathBuf::from(format!("/verif/.build/tmp/e2e-{}-{}", std::process::id(), id));
         std::fs::create_dir_all(&dir).map_err(|e| format!("mkdir: {e}"))?;
@@ -167,6 +280,47 @@ impl World {
         let server_addr = srv.local_addr().unwrap();
         let state = State::new().await.map_err(|e| format!("State::new: {e}"))?;
         tokio::spawn(run_listener(srv, None, state));
+        Ok(Base { id, dir, unexpected, slots, udp_targets, closed, closed_port, server_addr })
+    }
+
+    /// Start the real client with these remote specifications.
+    #[allow(clippy::type_complexity)]
+    fn spawn_client(&self, remotes: &[String]) -> Result<(&'static HandlerResources, Arc<Mutex<Option<String>>>, Instant), String> {
+        let mut parsed = vec![];
+        for r in remotes {
+            parsed.push(Remote::from_str(r).map_err(|e| format!("remote spec {r}: {e}"))?);
+        }
+        let args: &'static ClientArgs = Box::leak(Box::new(ClientArgs {
+            server: ServerUrl::from_str(&format!("ws://{}/ws", self.server_addr)).map_err(|e| format!("server url: {e}"))?,
+            remote: parsed,
+            keepalive: OptionalDuration::NONE,
+            max_retry_count: 5,
+            max_retry_interval: 1000,
+            handshake_timeout: OptionalDuration::from_secs(10),
+            channel_timeout: OptionalDuration::from_secs(10),
+            ..Default::default()
+        }));
+        let (hr, stream_command_rx, datagram_rx) = HandlerResources::create();
+        let hr: &'static HandlerResources = Box::leak(Box::new(hr));
+        let client_result = Arc::new(Mutex::new(None));
+        let client_started = Instant::now();
+        {
+            let cr = client_result.clone();
+            tokio::spawn(async move {
+                let r = client_main_inner(args, hr, stream_command_rx, datagram_rx).await;
+                *cr.lock().unwrap() = Some(format!("{r:?}"));
+            });
+        }
+        Ok((hr, client_result, client_started))
+    }
+}
+
+impl World {
+    /// Build the world inside the current runtime. `Err` = infrastructure problem (ports, bind), to
+    /// be retried by the caller, not a finding.
+    pub async fn start() -> Result<Arc<World>, String> {
+        let base = Base::start().await?;
+        let (slots, udp_targets, dir, closed_port) = (&base.slots, &base.udp_targets, &base.dir, base.closed_port);
         // the real client
         let tcp_ports: Vec<u16> = (0..SLOTS).map(|_| pick_port()).collect();
         let uds_paths: Vec<PathBuf> = (0..SLOTS).map(|j| dir.join(format!("s{j}.sock"))).collect();
@@ -189,35 +343,12 @@ impl World {
             let host = if a.is_ipv6() { "[::1]" } else { "127.0.0.1" };
             remotes.push(format!("127.0.0.1:{}:{host}:{}/udp", udp_remote_ports[t], a.port()));
         }
-        let mut parsed = vec![];
-        for r in &remotes {
-            parsed.push(Remote::from_str(r).map_err(|e| format!("remote spec {r}: {e}"))?);
-        }
-        let args: &'static ClientArgs = Box::leak(Box::new(ClientArgs {
-            server: ServerUrl::from_str(&format!("ws://{server_addr}/ws")).map_err(|e| format!("server url: {e}"))?,
-            remote: parsed,
-            keepalive: OptionalDuration::NONE,
-            max_retry_count: 5,
-            max_retry_interval: 1000,
-            handshake_timeout: OptionalDuration::from_secs(10),
-            channel_timeout: OptionalDuration::from_secs(10),
-            ..Default::default()
-        }));
-        let (hr, stream_command_rx, datagram_rx) = HandlerResources::create();
-        let hr: &'static HandlerResources = Box::leak(Box::new(hr));
-        let client_result = Arc::new(Mutex::new(None));
-        let client_started = Instant::now();
-        {
-            let cr = client_result.clone();
-            tokio::spawn(async move {
-                let r = client_main_inner(args, hr, stream_command_rx, datagram_rx).await;
-                *cr.lock().unwrap() = Some(format!("{r:?}"));
-            });
-        }
+        let (hr, client_result, client_started) = base.spawn_client(&remotes)?;
+        let lo = IpAddr::V4(Ipv4Addr::LOCALHOST);
         let w = Arc::new(World {
-            id,
-            slots,
-            unexpected_target_conns: unexpected,
+            id: base.id,
+            slots: base.slots,
+            unexpected_target_conns: base.unexpected,
             tcp_ports,
             uds_paths,
             refuse_tcp_port,
@@ -225,16 +356,163 @@ impl World {
             closed_port,
             socks_port,
             http_port,
-            udp_targets,
+            udp_targets: base.udp_targets,
             udp_remote_ports,
+            tcp_hosts: vec![lo; SLOTS],
+            socks_host: lo,
+            http_host: lo,
+            udp_remote_hosts: vec![lo; UDP_TARGETS],
+            specs: remotes,
+            never_opened: vec![],
             hr,
             client_started,
             client_result,
-            dir,
-            _closed: closed,
+            dir: base.dir,
+            _closed: base.closed,
         });
         w.wait_ready().await?;
         Ok(w)
+    }
+
+    /// The world of one "several remotes on one client" scenario: the client gets exactly the remotes of `plan`, in
+    /// that order.  Remotes of one group share a port number (found free for every socket of the group at once).
+    /// Returns as soon as every entry point is bound, or when the client is up (at least one of its listeners
+    /// is there, or 15 s have passed) and `OPEN_GRACE` later some entry point still is not: those are listed in
+    /// `never_opened` and left to the caller to report.  No byte has crossed the tunnel yet (the caller warms it
+    /// up through whichever remote it has).  `Err` = infrastructure (no free port, the client ended at start-up).
+    pub async fn start_multi(plan: &[PlanRemote]) -> Result<Arc<World>, String> {
+        if plan.is_empty() || plan.len() > SLOTS {
+            return Err(format!("a multi-remote world has 1 .. {SLOTS} remotes"));
+        }
+        let base = Base::start().await?;
+        let lo = IpAddr::V4(Ipv4Addr::LOCALHOST);
+        // one port number per group
+        let mut groups: Vec<u8> = plan.iter().filter(|r| !matches!(r.kind, PlanKind::Unix)).map(|r| r.group).collect();
+        groups.sort_unstable();
+        groups.dedup();
+        let mut port_of = std::collections::HashMap::new();
+        for g in groups {
+            let wanted: Vec<(bool, IpAddr)> = plan
+                .iter()
+                .filter(|r| r.group == g && !matches!(r.kind, PlanKind::Unix))
+                .map(|r| (matches!(r.kind, PlanKind::Udp { .. }), bind_ip(r.host_text, r.reach)))
+                .collect();
+            port_of.insert(g, pick_port_for(&wanted).ok_or("no port number free for every socket of a group")?);
+        }
+        let mut tcp_ports = vec![0u16; SLOTS];
+        let mut tcp_hosts = vec![lo; SLOTS];
+        let mut uds_paths: Vec<PathBuf> = (0..SLOTS).map(|j| base.dir.join(format!("absent{j}.sock"))).collect();
+        let (mut socks_port, mut http_port, mut socks_host, mut http_host) = (0u16, 0u16, lo, lo);
+        let mut udp_remote_ports = vec![0u16; UDP_TARGETS];
+        let mut udp_remote_hosts = vec![lo; UDP_TARGETS];
+        let mut remotes = vec![];
+        let mut listens = vec![];
+        for (i, r) in plan.iter().enumerate() {
+            let port = port_of.get(&r.group).copied().unwrap_or(0);
+            let host = r.host_text;
+            match r.kind {
+                PlanKind::Tcp => {
+                    tcp_ports[i] = port;
+                    tcp_hosts[i] = r.reach;
+                    remotes.push(format!("{host}:{port}:127.0.0.1:{}", base.slots[i].v4.port()));
+                    listens.push(Listens::Tcp(r.reach, port));
+                }
+                PlanKind::Unix => {
+                    uds_paths[i] = base.dir.join(format!("s{i}.sock"));
+                    remotes.push(format!("[unix:{}]:127.0.0.1:{}", uds_paths[i].display(), base.slots[i].v4.port()));
+                    listens.push(Listens::Unix(uds_paths[i].clone()));
+                }
+                PlanKind::Socks => {
+                    (socks_port, socks_host) = (port, r.reach);
+                    remotes.push(format!("{host}:{port}:socks"));
+                    listens.push(Listens::Tcp(r.reach, port));
+                }
+                PlanKind::Http => {
+                    (http_port, http_host) = (port, r.reach);
+                    remotes.push(format!("{host}:{port}:http"));
+                    listens.push(Listens::Tcp(r.reach, port));
+                }
+                PlanKind::Udp { udp_target } => {
+                    let a = base.udp_targets.get(udp_target).ok_or("no such UDP target")?.addr;
+                    udp_remote_ports[udp_target] = port;
+                    udp_remote_hosts[udp_target] = r.reach;
+                    remotes.push(format!("{host}:{port}:{}:{}/udp", if a.is_ipv6() { "[::1]" } else { "127.0.0.1" }, a.port()));
+                    listens.push(Listens::Udp(r.reach, port));
+                }
+            }
+        }
+        let (hr, client_result, client_started) = base.spawn_client(&remotes)?;
+        // which entry points appear?
+        let mut first_seen: Option<Instant> = None;
+        let mut never_opened = vec![];
+        loop {
+            if let Some(r) = client_result.lock().unwrap().clone() {
+                return Err(format!("CLIENT-ENDED-AT-START-UP client_main_inner returned {r} (remotes: {})", remotes.join(" ")));
+            }
+            let bound: Vec<bool> = listens.iter().map(Listens::bound).collect();
+            if bound.iter().all(|b| *b) {
+                break;
+            }
+            let now = Instant::now();
+            if first_seen.is_none() && (bound.iter().any(|b| *b) || now > client_started + Duration::from_secs(15)) {
+                first_seen = Some(now);
+            }
+            if first_seen.is_some_and(|t| now > t + OPEN_GRACE) {
+                let up: Vec<String> = listens.iter().zip(&bound).filter(|(_, b)| **b).map(|(l, _)| l.text()).collect();
+                for (i, (l, b)) in listens.iter().zip(&bound).enumerate() {
+                    if !*b {
+                        never_opened.push((
+                            i,
+                            format!(
+                                "nothing listens on {} (remote {i}, `{}`) {} ms after the client was started, although the client is running and has opened {}",
+                                l.text(),
+                                remotes[i],
+                                client_started.elapsed().as_millis(),
+                                if up.is_empty() { "none of its entry points".to_string() } else { up.join(", ") }
+                            ),
+                        ));
+                    }
+                }
+                break;
+            }
+            tokio::time::sleep(Duration::from_millis(10)).await;
+        }
+        Ok(Arc::new(World {
+            id: base.id,
+            slots: base.slots,
+            unexpected_target_conns: base.unexpected,
+            tcp_ports,
+            uds_paths,
+            refuse_tcp_port: 0,
+            refuse_uds_path: base.dir.join("absent-refuse.sock"),
+            closed_port: base.closed_port,
+            socks_port,
+            http_port,
+            udp_targets: base.udp_targets,
+            udp_remote_ports,
+            tcp_hosts,
+            socks_host,
+            http_host,
+            udp_remote_hosts,
+            specs: remotes,
+            never_opened,
+            hr,
+            client_started,
+            client_result,
+            dir: base.dir,
+            _closed: base.closed,
+        }))
+    }
+
+    /// Where a local UDP client sends to reach the UDP remote of target `t`.
+    pub fn udp_remote_addr(&self, t: usize) -> SocketAddr {
+        SocketAddr::new(self.udp_remote_hosts[t], self.udp_remote_ports[t])
+    }
+
+    /// Where a local UDP client of the scenario binds: the loopback address of the family it sends to.
+    pub fn udp_client_bind(&self, socks: bool, targets: &[usize]) -> &'static str {
+        let to = if socks { self.socks_host } else { targets.first().map_or(self.socks_host, |t| self.udp_remote_hosts[*t]) };
+        if to.is_ipv6() { "[::1]:0" } else { "127.0.0.1:0" }
     }
 
     /// Wait until every listener of the client is bound and the tunnel carries one byte.
